@@ -348,6 +348,8 @@ def loopback_case(ctx, rng, idx):
                 # farewell: some clients send their last packets and close at once; the server stack is serviced only
                 # afterwards, so it meets the last bytes and the end of the connection in the same pass
                 leaving = [i for i in range(nclients) if rng.random() < 0.7] or [0]
+                if nclients > 1 and len(leaving) == nclients:
+                    leaving = leaving[:-1]          # somebody stays (and is sent packets behind one for a peer that left)
                 for i in leaving:
                     for _ in range(rng.randint(1, 3)):
                         net.queue_up(i, rng.randint(1, 40))
@@ -384,6 +386,7 @@ def loopback_case(ctx, rng, idx):
                                   left_in_rxbs=[len(ix.rxbs) for ix in s.handler.ixes.values()],
                                   **cmp_wit("queued", up_q, "packets", up_pkts)))
             if ok_final:
+                departed_peer(ctx, net, loop, desc, wit, random_mod.Random(repr(("departed", idx, sizes[:8], nclients))))
                 server_farewell(ctx, net, loop, desc, wit, random_mod.Random(repr(("farewell", idx, sizes[:8], nclients))))
             nontrivial = all(net.to_server[i] and net.to_client[i] for i in range(nclients)) and \
                 (partial["client"] + partial["server"] > 0)
@@ -403,6 +406,41 @@ def loopback_case(ctx, rng, idx):
     finally:
         ctx.case(("loopback", nclients, sbuf, cbuf, sizes, loop.trace[:200]), nontrivial=nontrivial)
         net.close()
+
+
+def departed_peer(ctx, net, loop, desc, wit, rng):
+    """a packet queued for a peer that has left (its connection is gone from the server) stands in the queue before
+    packets for a peer that is still connected: the stack reports the packet it cannot deliver (ValueError) and the
+    application goes on servicing -- the packets behind it still reach their peer"""
+    s = net.server
+    gone = [i for i in desc.get("at_close", {}) if net.clients[i].handler.ca not in s.handler.ixes]
+    here = [i for i in range(len(net.clients)) if net.ca(i) is not None and not net.clients[i].handler.cutoff]
+    if not gone or not here:
+        return
+    from ioflo.aio.proto import packeting
+    g, j = rng.choice(gone), rng.choice(here)
+    s.transmit(packeting.Packet(stack=s, packed=b"for the one who left"), net.clients[g].handler.ca)
+    for _ in range(rng.randint(1, 3)):
+        net.queue_down(j, rng.randint(1, 40))
+    reported = 0
+    for k in range(60):
+        try:
+            loop.call("S.serviceTxPkts", s.serviceTxPkts)
+        except ValueError:
+            reported += 1
+        loop.call("S.handler.serviceTxesAllIx", s.handler.serviceTxesAllIx)
+        loop.call("C%d.serviceAll" % j, net.clients[j].serviceAll)
+        up_q, up_wire, up_pkts, dn_q, dn_wire, dn_pkts = net.views(j)
+        if dn_wire == dn_q and k >= 2:
+            break
+        time_mod.sleep(0.0005)
+    ctx.hit("packets_behind_one_for_a_departed_peer")
+    up_q, up_wire, up_pkts, dn_q, dn_wire, dn_pkts = net.views(j)
+    ctx.check(dn_wire == dn_q, "TcpServerStack/tx/packets-behind-one-for-a-departed-peer-not-delivered",
+              "packets queued for a connected peer behind a packet for a peer that has left did not reach it within 60 service rounds "
+              "(the undeliverable packet was reported %d times)" % reported,
+              lambda: dict(wit(), client=j, departed=g, reported=reported, still_queued=len(s.txPkts),
+                           **cmp_wit("queued", dn_q, "peer_received", dn_wire)))
 
 
 def server_farewell(ctx, net, loop, desc, wit, rng):
@@ -667,5 +705,6 @@ def run(ctx):
     ctx.floor("same_packet_object_queued_more_than_once", ctx.pick(20, 600))
     ctx.floor("farewell_judged", ctx.pick(20, 600))
     ctx.floor("server_farewell_judged", ctx.pick(10, 300))
+    ctx.floor("packets_behind_one_for_a_departed_peer", ctx.pick(3, 100))
     ctx.floor("second_life_judged", ctx.pick(5, 150))
     ctx.floor("empty_packets_queued", ctx.pick(30, 1000))
